@@ -14,6 +14,9 @@ CHECKS = {
  'C09': dict(tech=B, cat='model_checking',
              text='cs_line.c IR evaluated symbolically with the primitives as uninterpreted functions: shell value = photo x jump share x yield for each of the 2^4 edge patterns, line -> shell mapping for every 32-bit line value, LB sum, failure iff undefined',
              note='double modelled as real; primitives >= 0 and error iff 0; DL2: edges ordered K>L1>L2>L3, jump ratios 0 or >= 1'),
+ 'C05': dict(tech=B, cat='model_checking',
+             text='every aggregate / unit-variant entry point (CS_Total, the Kissel totals, 10 barn twins, 4 Kissel twins, DCS/DCSP Rayleigh and Compton) evaluated symbolically with its parts as uninterpreted functions: value equals the defining identity for all Z, E, theta, phi and fails iff a part is undefined',
+             note='double modelled as real; parts are uninterpreted >= 0 with error iff 0; sin/cos uninterpreted in [-1,1]; DL2: data present => atomic weight present'),
 }
 NA = {
  'C19': 'no symbolic engine for Java/JVM bytecode is installed (no JBMC/SPF); a hand-written Java->SMT translator for 5900 lines using ByteBuffer I/O, exceptions and collections is out of reach; see DESIGN.md C19',
